@@ -627,7 +627,8 @@ func runCase(w *bufio.Writer, c *tcase) {
 	defer func() {
 		if d := time.Since(started); d > caseBudget {
 			slowSeen = true
-			fmt.Fprintf(w, "C %s-slow %d %s %s\nX - slow: the history %s (%d operations) took %v, budget %v\nE\n", c.id, c.m, c.kind, c.impls, c.id, len(c.ops), d.Round(time.Millisecond), caseBudget)
+			// a wall-clock budget never decides a verdict: this is a note for the evidence, not an anomaly
+			fmt.Fprintf(w, "N slow: the history %s (%d operations) took %v, budget %v; the rest of it was skipped\n", c.id, len(c.ops), d.Round(time.Millisecond), caseBudget)
 		}
 	}()
 	fmt.Fprintf(w, "C %s %d %s %s\n", c.id, c.m, c.kind, c.impls)
